@@ -44,8 +44,9 @@ def check_pair(mx, my, info=None, origins=('built', 'built')):
         if why:
             bad(f'unsound/{r.op_string}{r.op_symbol}/{why}',
                 f'{tag} -> {r.cat} labelled {r.op_string} {r.op_symbol}: {why}')
+    got_by_label = {(g[0], g[2]) for g in got}
     for lab, sym, want in oe.expected(x2, y2):
-        if (lab, sym, want) not in got:
+        if (lab, want) not in got_by_label:       # (under whatever symbol the label is written)
             bad(f'incomplete/{lab}{sym}',
                 f'{tag}: premises of {lab} {sym} hold with identical matched parts, expected {canon(want)}; '
                 f'got {[(g[0], canon(g[2])) for g in got]}')
